@@ -38,10 +38,11 @@ def run_contract_task(args):
         c = next(x for x in reg.all if x.name == name)
         res = verify_contract(c, SourceIndex(), unroll=opts.get('unroll', 0), timeout_ms=opts.get('timeout_ms', 20000),
                               known=known.load(), pinned=opts.get('pinned'), max_paths=opts.get('max_paths', 6000),
-                              budget_s=opts.get('budget_s', 600))
+                              budget_s=opts.get('budget_s', 600), shard=opts.get('shard'))
         res['obligations'] = [o.to_json() for o in res['obligations']]
         res['models_used'] = sorted(models.USED)
         res['kind'] = 'contract'
+        res['shard'] = opts.get('shard')
         res['doc'] = c.doc
         res['assumed'] = c.assumed
         res['is_lemma'] = getattr(c, 'is_lemma', False)
